@@ -4,6 +4,12 @@ _BASE_NOTE = ("Trusted: CrossHair's symbolic models of str/int/list and z3 (for 
               "bounds per condition as written to evidence (pre: lines). Nothing is claimed outside the bounds.")
 
 CLAIMS = {
+    "C20": {
+        "technique": "bounded symbolic execution (CrossHair/z3) of diff_schema and its safe-type-change predicates on solver-chosen wrapper lists and elementary edits, against a variance oracle and a client corpus",
+        "text": "Predicates: all 19x19 wrapper pairs x same/other named type x input/output: real 'safe' implies the variance oracle. Edits: every single and every compatible pair of 36 elementary edits, "
+                "and 7 retyping sites x 8 wrapper lists: identical => no change, edit => change naming the element, result independent of definition order, no BREAKING => the client corpus stays valid.",
+        "note": _BASE_NOTE + " 'Every operation valid against the old schema' is a fixed corpus of 25 operations; PYTHONHASHSEED is fixed to 0 in the workers (hash-order independence is only exercised through definition order).",
+    },
     "C19": {
         "technique": "bounded symbolic execution (CrossHair/z3) of MaxDepthValidationRule on solver-chosen selection trees with a symbolic limit, against a reference depth",
         "text": "Every document of the generator family (chains up to depth 3 wrapped in inline/named fragments at the top and below, @skip/@include on variables, merged same-key branches, two operations with name filter) "
